@@ -664,6 +664,10 @@ func c06DirMuts(img *c06Img, thorough bool, di int) []c06Mut {
 	add("prefix-unaligned", fmt.Sprintf("%d_%s", d.ts+1, suffix), "timestamp not a day boundary", false)
 	add("prefix-other-day", fmt.Sprintf("%d_%s", d.ts+5*86400, suffix), "timestamp of a day without data, same month", false)
 	add("prefix-other-day", fmt.Sprintf("%d_%s", d.ts-40*86400, suffix), "timestamp of another month", false)
+	// day-aligned timestamps far outside every query range whose NAMES sort among the real days
+	// (name order is not time order): whoever cuts the directory walk short at them loses intact days
+	add("prefix-out-of-range", fmt.Sprintf("%d0_%s", d.ts, suffix), "timestamp ten times as large (day boundary centuries ahead, sorts right after this day's name)", false)
+	add("prefix-out-of-range", fmt.Sprintf("%d_%s", d.ts/86400/10*86400, suffix), "timestamp a tenth as large (day boundary in 1975)", false)
 	add("prefix-negative", fmt.Sprintf("-%d_%s", d.ts, suffix), "negative timestamp", false)
 	add("prefix-huge", "99999999999999999999_"+suffix, "timestamp beyond 64 bit", false)
 	add("prefix-huge", fmt.Sprintf("%d_%s", int64(1)<<62, suffix), "timestamp 2^62", false)
@@ -1716,7 +1720,7 @@ func init() {
 	register("C06", &explore.Scenario{
 		ID: "C06", Name: "single (thorough: paired) mutations of every file and day-directory name of a valid database, read by the real engine in an executor child process", Level: "fault_enumeration",
 		Rule: "reference database: 2 interfaces x 3 days (month change) x 1-3 blocks (12 blocks, v4/v6/mixed) plus one day on eth1 with one block of 1030 flows (address columns larger than the readers' smallest buffers; target of the structured .blockmeta mutations only: count shifts, count / nblocks bit flips, zero blocks, empty, delete), written by the real DBWriter (lz4). case = (day directory, file) x slice of its mutation list; files = 8 column files, .blockmeta, the directory name. execution = one mutation x one read shape (Q0 raw+time; Q1 sip,dip,time where dport=80 in low-memory mode; Q2 dport,proto,time where snet is IPv6; L listing through ReadMetadata over whole range, partial range and each undamaged day), run in an executor child process. " +
-			"THOROUGH: all 6 days; per file every truncation length, empty, delete, EVERY single-bit flip, every byte <- 00/ff, appended garbage (1,16,88,4096 bytes), exchange with every sibling column (.blockmeta: with sip and bytes_rcvd), exchange with the same-named file of every other day of both interfaces, .blockmeta replaced by well-formed files with zero / fewer blocks, per block the IPv4/IPv6 entry counts shifted by (-4k,+k) / (+4k,-k) (k = 1, maximal: the address columns' expected length stays the same); directory names: suffix removed/empty/foreign/zero/wrong field count/overlong/second underscore/characters outside the code table, every suffix character x 6 values, every suffix truncation, timestamp prefix non-numeric/unaligned/other day/negative/overflowing; all x 4 shapes. Exception: bit flips that turn a stored block length into 16 MiB..1 GiB (top byte of Len/RawLen, bits 0-6; seconds and up to 2 GiB each) run for 2 columns x 3 magnitudes x Q0 under a machine-wide 4-slot lock. Plus every unordered PAIR of mutations from a reduced list (empty, half truncation, first bit, +16 bytes, .blockmeta deleted / zero blocks, 3 directory names) in different calendar days x 4 shapes. " +
+			"THOROUGH: all 6 days; per file every truncation length, empty, delete, EVERY single-bit flip, every byte <- 00/ff, appended garbage (1,16,88,4096 bytes), exchange with every sibling column (.blockmeta: with sip and bytes_rcvd), exchange with the same-named file of every other day of both interfaces, .blockmeta replaced by well-formed files with zero / fewer blocks, per block the IPv4/IPv6 entry counts shifted by (-4k,+k) / (+4k,-k) (k = 1, maximal: the address columns' expected length stays the same); directory names: suffix removed/empty/foreign/zero/wrong field count/overlong/second underscore/characters outside the code table, every suffix character x 6 values, every suffix truncation, timestamp prefix non-numeric/unaligned/other day/day-aligned but far outside the range with a name that sorts among the real days/negative/overflowing; all x 4 shapes. Exception: bit flips that turn a stored block length into 16 MiB..1 GiB (top byte of Len/RawLen, bits 0-6; seconds and up to 2 GiB each) run for 2 columns x 3 magnitudes x Q0 under a machine-wide 4-slot lock. Plus every unordered PAIR of mutations from a reduced list (empty, half truncation, first bit, +16 bytes, .blockmeta deleted / zero blocks, 3 directory names) in different calendar days x 4 shapes. " +
 			"QUICK: the 3 days of eth0 (first/middle/last directory; eth1 is the untouched interface); all structural mutations (empty, delete, append, exchanges, zero/fewer blocks, IPv4/IPv6 count shifts, ~28 directory names) x 4 shapes in the first day, x {Q0,L} in the others; every truncation length of every .blockmeta x {Q0,L} and of every column of the first day x Q0; bit flips: every bit of the first/last 8 bytes and of the first byte of every block of every column of the first day x Q0; every bit of .blockmeta header, block tables of sip and bytes_rcvd, first timestamp and per-block counts/deltas in the first day x {Q0,L}, lowest and top bit of each of those bytes in the middle day and top bit in the last day x Q0 (lengths >= 64 KiB only through the top bit of the two high bytes). " +
 			"non-trivial = the reader noticed the damage (error, panic, death, BlocksCorrupted>0 or rows differing from the intact result), distinct by (mutation, shape); outcomes = distinct (rows hash, statistics / error class)",
 		Cases: func(t string) int { return len(c06PlanFor(t).targets) },
